@@ -382,10 +382,11 @@ def gen_cases(ctx):
     return cases, stats
 
 
-def oracle_ref(ctx, model, triples, rows, family="exec_sync"):
+def oracle_ref(ctx, model, triples, rows, family="exec_sync", ref=None):
     """(C): the implementation's response against the reference executor (Run/RefExecute.v) on the same case"""
     mc_of = {ic: mc for ic, mc, _ in triples}
-    ref = run_family(model, "exec_ref", [mc_of[r[0]] for r in rows])
+    if ref is None:
+        ref = run_family(model, "exec_ref", [mc_of[r[0]] for r in rows])
     fam = ctx.cov["families"].setdefault("exec_ref", {"cases": 0, "agree": 0, "known": 0})
     for (ic, iobs, mo, rd), r in zip(rows, ref):
         fam["cases"] += 1
@@ -416,8 +417,11 @@ def run(ctx):
     cases, stats = gen_cases(ctx)
     limit = stats["limit"]
     triples, skipped, invalid_pairs = exec_triples(impl, cases)
-    rows = correspond_pairs(ctx, impl, model, "exec_sync", triples, nontrivial=lambda rd, o: True)
-    oracle_ref(ctx, model, triples, rows)
+    ref = run_family(model, "exec_ref", [t[1] for t in triples])
+    cls_of_case = {t[2]: (r.rsplit(" cls=", 1)[1] if " cls=" in r else "-") for t, r in zip(triples, ref)}
+    rows = correspond_pairs(ctx, impl, model, "exec_sync", triples, nontrivial=lambda rd, o: True,
+                            classify=lambda rd, i, m: None if cls_of_case.get(rd, "-") == "-" else cls_of_case[rd])
+    oracle_ref(ctx, model, triples, rows, ref=ref)
     fam = ctx.cov["families"]["exec_sync"]
     fam.update(stats)
     fam["skipped_invalid_cases"] = skipped
